@@ -1,6 +1,7 @@
 import GitBugModel.Model.Cache
 import GitBugModel.Model.CacheStaged
 import GitBugModel.Model.Lru
+import GitBugModel.Gen.Evict
 /-!
 # C11 — the cache always agrees with a cache rebuilt from the git data
 -/
@@ -682,5 +683,30 @@ holds staged operations (or the size is 0) the new instance is the one that goes
 after the bug was stored (found by the correspondence run, repaired in /repo) -/
 theorem pinned_new_fails_under_pressure :
     (newPinned (run (init 1) [.new "a", .edit "a"]).1 "b").2.ok = false ∧ (newPinned (init 0) "b").2.ok = false := by decide
+
+/-! ## the tie to the source (regenerated on every check)
+
+`GitBugModel.Lru.evictLoop` transcribes the loop of `evictIfNeeded`, `step` the order in which `add`,
+`Resolve` and `SetCacheSize` touch the list, announce the entity and evict. The translator reads
+exactly those statements from `cache/subcache.go`; any other shape breaks these obligations. -/
+
+/-- the loop: oldest first; an instance that needs a commit is skipped before anything is dropped;
+dropping removes the key and the instance; the loop stops as soon as the size fits -/
+theorem gen_evict_loop :
+    GitBugModel.Gen.Evict.early = "if sc.lru.Len() <= sc.maxLoaded { return }" ∧
+    GitBugModel.Gen.Evict.loop =
+      ["range:sc.lru.GetOldestToNewest()", "b := sc.cached[id]", "if b.NeedCommit() { continue }", "b.Lock()",
+       "sc.lru.Remove(id)", "delete(sc.cached, id)", "if sc.lru.Len() <= sc.maxLoaded { return }"] := by
+  decide
+
+/-- `add` announces the new entity (its excerpt is written) before it makes room; `Resolve` evicts
+after the instance is in the list; `SetCacheSize` evicts with the new size; a notification moves the
+key and rewrites the excerpt, it never loads or drops anything -/
+theorem gen_evict_order :
+    GitBugModel.Gen.Evict.orderAdd = ["set:cached", "Add", "entityUpdated", "evictIfNeeded"] ∧
+    GitBugModel.Gen.Evict.orderResolve = ["Get", "Get", "set:cached", "Add", "evictIfNeeded"] ∧
+    GitBugModel.Gen.Evict.orderSetCacheSize = ["set:maxLoaded", "evictIfNeeded"] ∧
+    GitBugModel.Gen.Evict.orderEntityUpdated = ["Get", "makeExcerpt"] := by
+  decide
 
 end GitBugModel.Props.C11.LruEvict
